@@ -27,6 +27,8 @@ type Mem struct {
 	KeepData bool // keep a copy of written bytes in the log
 	seq      int
 	OpenErr  func(name string) error
+	// MaxFileSize, if > 0, makes Open fail for larger files (the harness's stand-in for a full disk; nothing is allocated).
+	MaxFileSize int64
 	// WriteHook, if set, is called (without the lock) before each WriteAt takes effect; it may block.
 	WriteHook func(name string, off int64, p []byte)
 	// AfterWrite, if set, is called after the bytes are in place, under the storage lock (must not call back into Mem).
@@ -55,6 +57,9 @@ func (m *Mem) Open(name string, size int64) (storage.File, bool, error) {
 		if err := m.OpenErr(name); err != nil {
 			return nil, false, err
 		}
+	}
+	if m.MaxFileSize > 0 && size > m.MaxFileSize {
+		return nil, false, fmt.Errorf("memfile %q: no space for %d bytes", name, size)
 	}
 	m.mu.Lock()
 	defer m.mu.Unlock()
